@@ -21,7 +21,7 @@ CHUNK = 250
 SUB_T = [0.5, 0.25, 0.0625]        # seconds per time sub-tick (case field u = 1, 2, 3)
 SUB_F = 64.0                       # Hz per frequency sub-tick; MAX_FREQUENCY = 78125 sub-ticks (Buffer!FMAXS)
 
-RULE = ("every pair of calls of the TLA+ enumeration (50 geometries of all nine kinds incl. shapes on the edges time 0, "
+RULE = ("every pair of calls of the TLA+ enumeration (54 geometries of all nine kinds incl. shapes on the edges time 0, "
         "frequency 0 and MAX_FREQUENCY and events later than 5e6 s; time/frequency buffers 0, 1/2, 1, 2 ticks and beyond the domain "
         "(time buffers up to 1e8 s for the closed-form kinds: the time axis has no upper edge), paired with the next "
         "larger setting; negative-buffer combinations; the buffer arguments passed as Python int/float and as numpy float64/float32/"
@@ -131,6 +131,9 @@ def _rand_geom(rng):
 
     def line():
         ts = sorted(rng.sample(range(0, 41), rng.randint(2, 4)))
+        if len(ts) > 2 and rng.random() < 0.5:           # interior vertices in any order: the line may go back in time
+            mid = [rng.randint(0, 40) for _ in ts[1:-1]]  # (legal as long as first time < last time)
+            ts = [ts[0]] + mid + [ts[-1]]
         return [pt(t) for t in ts]
 
     def tri():
@@ -184,12 +187,14 @@ def _vertices(g):
 
 
 def _rand_probes(rng, g):
-    """vertices, integral midpoints of consecutive vertices, and random lattice points around the bounding box."""
+    """vertices, lattice points on the segments between consecutive vertices, and random lattice points around the bounding box."""
     vs = _vertices(g)
     out = [list(v) for v in vs]
-    for a, b in zip(vs, vs[1:]):
-        if (a[0] + b[0]) % 2 == 0 and (a[1] + b[1]) % 2 == 0:
-            out.append([(a[0] + b[0]) // 2, (a[1] + b[1]) // 2])
+    from math import gcd
+    for a, b in zip(vs, vs[1:]):                          # lattice points on the segment between consecutive vertices (at most 7)
+        n = gcd(abs(a[0] - b[0]), abs(a[1] - b[1]))
+        for q in range(1, n, max(1, n // 8)):
+            out.append([a[0] + (b[0] - a[0]) // n * q, a[1] + (b[1] - a[1]) // n * q])
     t0, t1 = min(v[0] for v in vs), max(v[0] for v in vs)
     f0, f1 = min(v[1] for v in vs), max(v[1] for v in vs)
     for _ in range(60):
@@ -285,7 +290,7 @@ MANIFEST = {
              "domain, every vertex and lattice point of the original inside the result (exact rational even-odd ray casting on "
              "the output coordinates), bounds reaching the widened bounds clipped to the domain (limb numbers compared in TLA+; "
              "line strings against the inscribed-32-gon bound as well), supersets for comparable buffer pairs, negative buffers "
-             "rejected. TLC enumerates 50 geometries of all nine kinds (incl. shapes on the three domain edges) x 25 buffer "
+             "rejected. TLC enumerates 54 geometries of all nine kinds (incl. shapes on the three domain edges) x 25 buffer "
              "settings paired with the next larger one + negative combinations; a random driver adds larger lattices; every call "
              "is executed on the real code and judged by TLC."),
     "note": ("trusted: TLC, the binder checks/c11.py (encoder; min/max, ring closure and exact point location are generic "
